@@ -67,6 +67,17 @@ def fuzz_part(run, rtbin):
 ALT_TARGET = os.path.join(common.TARGET, "alt")
 
 
+ALT_STD_TARGET = os.path.join(common.TARGET, "alt-std")
+
+
+def build_rtprops_alt_std():
+    """as build_rtprops_alt, but the library keeps its `std` feature (C13: io::Error codes exist only there)"""
+    ok, out = common.cargo_build("rtprops", release=True, extra=["--no-default-features", "--features", "altcfg-std"], target_dir=ALT_STD_TARGET)
+    if not ok:
+        raise Infra("rtprops (alternative configuration with std) does not build against the current tree:\n" + out[-4000:])
+    return common.bin_path("rtprops", release=True, target_dir=ALT_STD_TARGET)
+
+
 def build_rtprops_alt(release=False):
     """the same harness against the library in another configuration: without its `std` feature,
     with the `log` feature and a trace-level logger that formats every record, built with the
@@ -84,14 +95,30 @@ def rt(run):
         for f in common.saved_replays(run.prop):
             run.run_harness(b, timeout=300, label="regression:" + os.path.basename(f), replay_file=f)
     run.run_harness(b, timeout=7200)
+    if run.prop == "C13":
+        # (C13's subject, the integer coding of io::Error, only exists with the `std` feature:
+        # its second configuration keeps `std` and adds `log` at trace level, release profile)
+        b2 = build_rtprops_alt_std()
+        run.tier_override = "quick"
+        try:
+            run.run_harness(b2, timeout=7200, label="altcfg-std-rtprops")
+        except Infra:
+            if not any(r.get("violations") for r in run.results):
+                raise
+        finally:
+            run.tier_override = None
+        run.assumptions.append("second pass over the quick-tier case set with the library built with `log` enabled at trace level, in the release profile")
     if run.prop != "C13":
-        # (C13's subject, the integer coding of io::Error, only exists with the `std` feature)
         # always the release profile (debug assertions off): the default-configuration binary of
         # the quick tier is a debug build, so both kinds of build are exercised on every change
         b2 = build_rtprops_alt(release=True)
         run.tier_override = "quick"
         try:
             run.run_harness(b2, timeout=7200, label="altcfg-rtprops")
+        except Infra:
+            # a violation already found by the first pass stands; only without one is the run inconclusive
+            if not any(r.get("violations") for r in run.results):
+                raise
         finally:
             run.tier_override = None
         run.assumptions.append("second pass over the quick-tier case set with the library built without its `std` feature, with `log` enabled at trace level, in the release profile (debug assertions off)")
@@ -358,6 +385,9 @@ def c03(run):
                 other.append((f, mm["message"][:200]))
         if other and not by_mod:
             raise Infra(f"lint crate does not compile for reasons other than the FFI lints: {other[:3]}")
+        if r.returncode != 0 and not by_mod:
+            # (e.g. dependency resolution failed: nothing was compiled, so nothing was judged)
+            raise Infra("cargo check of the lint crate failed without compiler messages:\n" + (r.stderr or "")[-1500:])
         by_id = {d["id"]: d for d in chunk}
         for mod, errs in by_mod.items():
             d = by_id.get(mod)
@@ -647,6 +677,21 @@ def c05(run):
         if ep.get("pair"):
             pairs = [tuple(ep["pair"])]
             cfgs = {k: tuple(v) for k, v in ep["cfgs"].items()}
+    if not run.replay or json.load(open(run.replay)).get("sub") == "plugin-api-types":
+        # the repository's own plugin API (the documented way to cross a module boundary): every
+        # public type it declares is read by both modules, so each needs a defined C representation
+        # (a repr(Rust) struct only breaks under a different compiler or layout seed)
+        exp = build_expander()
+        out = os.path.join(common.WORK, f"c05-reprs-{os.getpid()}.json")
+        common.sh([exp, "reprs", os.path.join(common.REPO, "examples", "plugin-api", "src"), out], timeout=300)
+        rp = json.load(open(out)); os.remove(out)
+        viol = []
+        if rp["without_repr"]:
+            viol.append({"sub": "plugin-api-types", "key": "C05:boundary-type-without-c-repr", "what": f"public types of examples/plugin-api that both modules read have no C representation: {rp['without_repr'][:5]}", "case": {"types": rp["without_repr"]}})
+        run.add_result({"_label": "plugin-api-types", "evaluations": rp["public_types"], "distinct_nontrivial": rp["public_types"], "violations": viol, "classes": {}, "known_seen": {}, "samples": [],
+                        "rule": "every public non-zero-sized struct/enum/union declared by examples/plugin-api/src (parsed with syn) carries a repr attribute"})
+        if run.replay:
+            return
     built = {}
     for k in sorted(set(x for p in pairs for x in p)):
         built[k] = xmod_build(cfgs[k])
@@ -666,6 +711,14 @@ def c08(run):
     if not ok:
         raise Infra("the C08 cell crate does not build against the current tree:\n" + json.dumps(errs)[:2000] + tail[-1500:])
     run.run_harness(exe, timeout=1800, label="c08cells")
+    # second configuration: the library with `layout_checks`
+    d2 = gen_c08.make_lc()
+    ok, exe2, errs, tail = _diag.build(d2, PB_TARGET, timeout=3000)
+    if not ok:
+        if any(r.get("violations") for r in run.results):
+            return
+        raise Infra("the C08 layout_checks cell crate does not build against the current tree:\n" + json.dumps(errs)[:2000] + tail[-1500:])
+    run.run_harness(exe2, timeout=1800, label="c08lc")
 
 
 def c09(run):
